@@ -1,3 +1,14 @@
+/-!
+# DESIGN-PHASE SEED (superseded by `Model/Cache.lean`) - `cache.Cleaner.ReleaseBuckets` (C18)
+
+`releaseBuckets` / `swapLoop` below are the swap-with-last loop as the code was BEFORE the C18 fix (kept for
+`releaseBuckets_counterexample`); `releaseBucketsFixed` is the repaired form.  The model used by the C18 theorems is
+`SV.Cache.releaseBuckets` (Model/Cache.lean; its `releaseBucketsOld` is the historical form there).  Do not cite this
+file as a model of the current code.
+Relation, proved in `Consistency/FileSetRetention.lean`: `cons_buckets_seedFixed_eq_c18_releaseBuckets` (seed's fixed
+form = C18's model, distinct bucket ids), `cons_buckets_seedOld_eq_fixed_of_none_released`,
+`cons_buckets_seedOld_ne_c18_releaseBuckets_witness` ([released, live, released]: old loop keeps the wrong bucket).
+-/
 namespace SV.Buckets
 
 structure B where
